@@ -41,6 +41,18 @@ CLAIMED = {
         "(size, spacing, center, origin, direction, align_corners, cube_extent), float32 tolerance policy",
         "DESIGN.md 3 C03",
     ),
+    "C08": (
+        "spec/HForms.tla, spec/MC_HForms.tla, spec/Rotations.tla, spec/MC_Rotations.tla",
+        "TLA+ models of the three operand forms of homogeneous transforms (composition = 'apply b then a', result form, batch "
+        "broadcasting, vectors ignore translation) and of Euler / quaternion / axis-angle rotations over exact rational cos/sin; TLC "
+        "checks the laws and enumerates operand/angle lattices; every case is executed on linalg/affine/_kornia functions and the "
+        "rotation transforms' getters and setters, conversions judged in rotation-matrix space",
+        "all 9 form pairs x 9 batch-shape pairs x D in {2,3}; the 12 proper orders (27 in thorough) x angle triples from quarter turns "
+        "and Pythagorean angles in three order notations, unbatched/batched/homogeneous call forms; axis-angle and quaternions on "
+        "rational axes; an exception on a documented form is a violation",
+        "trusted: TLC, Rat/RatLA/Rot, float64 atan2 of the rational (cos, sin) pairs in the harness",
+        "DESIGN.md 3 C08",
+    ),
     "C09": (
         "spec/TransformState.tla, spec/MC_TransformState.tla",
         "TLA+ state machine of buffered transform state (parameter holders, shared parameter tensors of shallow copies, p-buffer "
